@@ -713,3 +713,26 @@ Theorem C12_aslist_blank : forall v,
   forallb (fun c => memN c py_whitespace) (concat v) = true -> aslist v = [].
 Proof. exact aslist_blank. Qed.
 Print Assumptions C12_aslist_blank.
+
+(* ---- proof-only round 3: the aslist model splits exactly at whitespace (Proofs/C12_aslist2.v) *)
+Require Import Verif.Proofs.C12_aslist2.
+
+Theorem C12_split_is_inverse_of_layout : forall rest pre t0 post,
+  forallb isws pre = true -> forallb isws post = true -> good_token t0 ->
+  Forall (fun p => good_sep (fst p) /\ good_token (snd p)) rest ->
+  py_split (pre ++ t0 ++ tail_layout rest ++ post) [] = t0 :: map snd rest.
+Proof. exact split_is_inverse_of_layout. Qed.
+Print Assumptions C12_split_is_inverse_of_layout.
+
+Theorem C12_split_at_ws : forall w b, isws w = true -> forall a cur,
+  py_split (a ++ w :: b) cur = py_split a cur ++ py_split b [].
+Proof. exact split_at_ws. Qed.
+Print Assumptions C12_split_at_ws.
+
+Theorem C12_split_token_alone : forall t, t <> [] -> forallb nonws t = true -> py_split t [] = [t].
+Proof. exact token_alone. Qed.
+Print Assumptions C12_split_token_alone.
+
+Theorem C12_split_blank : forall s, forallb isws s = true -> py_split s [] = [].
+Proof. exact split_blank. Qed.
+Print Assumptions C12_split_blank.
